@@ -2,7 +2,7 @@
 //! released one step at a time according to a given schedule (a list of thread ids).
 use crate::tree::{build, fmt_map, record_stream, Ctx};
 use crate::{hex, Toks};
-use rspack_sources::{BoxSource, CachedSource, MapOptions, ReplaceSource, ReplacementEnforce, Source};
+use rspack_sources::{BoxSource, CachedSource, MapOptions, ReplaceSource, ReplacementEnforce, Source, SourceExt};
 use std::cell::Cell;
 use std::sync::{Arc, Condvar, Mutex};
 use std::time::Duration;
@@ -22,10 +22,14 @@ struct Ctl {
   free_run: bool,
   /// park at `cached.stream_insert` too (the thread then holds the map shard locked)
   probe: bool,
+  /// every operation is `hash`: whatever schedule point a thread reaches lies inside the one-time
+  /// initialisation of the shared digest (children sort their replacements there, for example)
+  hash_mode: bool,
 }
 
 thread_local! {
   static TID: Cell<Option<usize>> = const { Cell::new(None) };
+  static HASH_MODE: Cell<bool> = const { Cell::new(false) };
 }
 
 type Shared = Arc<(Mutex<Ctl>, Condvar)>;
@@ -36,7 +40,7 @@ fn parks(site: &str, probe: bool) -> bool {
   match site {
     "cached.stream_locked" => false,
     "cached.stream_insert" => probe,
-    _ => true,
+    _ => true, // includes "child.hash": a user-defined child called back from inside CachedSource::hash
   }
 }
 
@@ -81,6 +85,7 @@ fn site_num(s: &str) -> u32 {
     "cached.map_insert" => 1,
     "cached.stream_entry" => 2,
     "cached.stream_insert" => 3,
+    "child.hash" => 7,
     "start" => 9,
     _ => 8,
   }
@@ -103,6 +108,7 @@ fn run_threads(
       at_site: vec![""; n],
       free_run: false,
       probe,
+      hash_mode: HASH_MODE.with(|h| h.get()),
     }),
     Condvar::new(),
   ));
@@ -146,23 +152,18 @@ fn run_threads(
   };
   const LONG: u32 = 4000;
   const SHORT: u32 = 12;
-  for tid in 0..n {
-    {
-      let mut g = m.lock().unwrap();
-      g.permits[tid] += 1;
-      g.status[tid] = Status::Running;
-      cv.notify_all();
-    }
-    wait_settled(tid, LONG);
-  }
   // the thread parked before the insert of the stream fill path holds the shard lock
   let holder = || -> Option<usize> {
     let g = m.lock().unwrap();
-    (0..n).find(|&i| g.status[i] == Status::Parked && g.at_site[i] == "cached.stream_insert")
+    // ... and so does a thread parked inside a child's Hash callback: it runs the OnceLock initialiser
+    (0..n).find(|&i| {
+      g.status[i] == Status::Parked
+        && (g.at_site[i] == "cached.stream_insert" || g.at_site[i] == "child.hash" || (g.hash_mode && g.at_site[i] != "start"))
+    })
   };
   // at most one thread is blocked on that lock at a time; while one is, only the holder is granted
   let mut blocked: Option<usize> = None;
-  let mut step = |tid: usize, blocked: &mut Option<usize>| {
+  let step = |tid: usize, blocked: &mut Option<usize>| {
     let h = holder();
     {
       let mut g = m.lock().unwrap();
@@ -185,7 +186,8 @@ fn run_threads(
       }
       _ => {
         wait_settled(tid, LONG);
-        if h == Some(tid) {
+        // the blocked thread runs on once the holder has left its critical section
+        if h == Some(tid) && holder() != Some(tid) {
           if let Some(b) = blocked.take() {
             wait_settled(b, LONG);
           }
@@ -193,6 +195,11 @@ fn run_threads(
       }
     }
   };
+  // let every thread pass "start" and run up to its first schedule point (a thread may already
+  // block here: its first access can meet a lock held by a thread parked inside a critical section)
+  for tid in 0..n {
+    step(tid, &mut blocked);
+  }
   for &tid in schedule {
     if tid >= n {
       continue;
@@ -253,6 +260,7 @@ pub fn sched_case(t: &mut Toks) -> String {
     "R" => sched_replace(t),
     "C" => sched_cached(t, false),
     "L" => sched_cached(t, true),
+    "H" => sched_hash(t),
     k => panic!("sched kind {}", k),
   }
 }
@@ -409,5 +417,117 @@ fn sched_cached(t: &mut Toks, probe: bool) -> String {
     out.push(format!("t{}.trace={}", i, join_u32(&traces[i])));
   }
   out.push(format!("hist={}", if hs.is_empty() { "_".to_string() } else { hs.join(";") }));
+  out.join(" ")
+}
+
+
+/// A user-defined child source whose `Hash` impl is a schedule point: the only place inside
+/// `CachedSource::hash` where another thread can be let in.
+#[derive(Debug, Clone, PartialEq, Eq)]
+struct ProbeSource(String);
+
+impl std::hash::Hash for ProbeSource {
+  fn hash<H: std::hash::Hasher>(&self, state: &mut H) {
+    rspack_sources::verif::sched_point("child.hash");
+    "ProbeSource".hash(state);
+    self.0.hash(state);
+  }
+}
+
+impl Source for ProbeSource {
+  fn source(&self) -> std::borrow::Cow<str> {
+    std::borrow::Cow::Borrowed(&self.0)
+  }
+  fn rope(&self) -> rspack_sources::Rope<'_> {
+    rspack_sources::Rope::from(&self.0)
+  }
+  fn buffer(&self) -> std::borrow::Cow<[u8]> {
+    std::borrow::Cow::Borrowed(self.0.as_bytes())
+  }
+  fn size(&self) -> usize {
+    self.0.len()
+  }
+  fn map(&self, _: &MapOptions) -> Option<rspack_sources::SourceMap> {
+    None
+  }
+  fn to_writer(&self, writer: &mut dyn std::io::Write) -> std::io::Result<()> {
+    writer.write_all(self.0.as_bytes())
+  }
+}
+
+impl rspack_sources::stream_chunks::StreamChunks for ProbeSource {
+  fn stream_chunks<'a>(
+    &'a self,
+    options: &MapOptions,
+    on_chunk: rspack_sources::stream_chunks::OnChunk<'_, 'a>,
+    on_source: rspack_sources::stream_chunks::OnSource<'_, 'a>,
+    on_name: rspack_sources::stream_chunks::OnName<'_, 'a>,
+  ) -> rspack_sources::stream_chunks::GeneratedInfo {
+    rspack_sources::stream_chunks::stream_chunks_default(&*self.0, None, options, on_chunk, on_source, on_name)
+  }
+}
+
+fn digest_of(s: &CachedSource<BoxSource>) -> u64 {
+  use std::hash::{Hash, Hasher};
+  let mut h = std::collections::hash_map::DefaultHasher::new();
+  s.hash(&mut h);
+  h.finish()
+}
+
+/// `sched H <src> <progs of "h"> <schedule>`: threads hash clones of one CachedSource whose tree
+/// contains a ProbeSource; every call must return what a single thread computes.
+fn sched_hash(t: &mut Toks) -> String {
+  let start = t.pos;
+  let mk = |t: &mut Toks| -> CachedSource<BoxSource> {
+    let mut ctx = Ctx::default();
+    let inner: BoxSource = build(t, &mut ctx).boxed();
+    let probe: BoxSource = ProbeSource("probe\n".to_string()).boxed();
+    CachedSource::new(rspack_sources::ConcatSource::new([inner, probe]).boxed())
+  };
+  // the sequential value, from an identical tree hashed by one thread (no hook installed yet)
+  let reference = {
+    let mut t0 = Toks { toks: t.toks.clone(), pos: start };
+    digest_of(&mk(&mut t0))
+  };
+  let obj = Arc::new(mk(t));
+  let nthreads = t.num() as usize;
+  let mut progs: Vec<usize> = Vec::new();
+  for _ in 0..nthreads {
+    let k = t.num() as usize;
+    for _ in 0..k {
+      t.next();
+    }
+    progs.push(k);
+  }
+  let ns = t.num();
+  let schedule: Vec<usize> = (0..ns).map(|_| t.num() as usize).collect();
+  let results: Arc<Mutex<Vec<Vec<u8>>>> = Arc::new(Mutex::new(vec![Vec::new(); nthreads]));
+  let mut bodies: Vec<Box<dyn FnOnce() + Send>> = Vec::new();
+  for (i, k) in progs.iter().enumerate() {
+    let obj = obj.clone();
+    let results = results.clone();
+    let k = *k;
+    bodies.push(Box::new(move || {
+      for _ in 0..k {
+        let handle: CachedSource<BoxSource> = (*obj).clone();
+        let d = digest_of(&handle);
+        results.lock().unwrap()[i].push((d == reference) as u8);
+      }
+    }));
+  }
+  HASH_MODE.with(|h| h.set(true));
+  let _ = run_threads(bodies, &schedule, true, || {});
+  HASH_MODE.with(|h| h.set(false));
+  let res = results.lock().unwrap();
+  let mut out = Vec::new();
+  for i in 0..nthreads {
+    out.push(format!("t{}.n={}", i, res[i].len()));
+    for (j, r) in res[i].iter().enumerate() {
+      out.push(format!("t{}.r{}={}", i, j, r));
+    }
+    if res[i].len() < progs[i] {
+      out.push(format!("t{}.panic={}", i, hex(crate::last_panic_location().as_bytes())));
+    }
+  }
   out.join(" ")
 }
